@@ -4,6 +4,7 @@ import (
 	"encoding/json"
 	"errors"
 	"fmt"
+	"io"
 	"math"
 	"strconv"
 	"time"
@@ -297,9 +298,15 @@ func buildEntry(e encEnt) zapcore.Entry {
 		Message: string(unhx(e.Msg)), Caller: e.Caller.goCaller(), Stack: string(unhx(e.Stack))}
 }
 
-type captureSink struct{ writes [][]byte }
+type captureSink struct {
+	writes [][]byte
+	before func() // called on entry to Write, before p is looked at
+}
 
 func (c *captureSink) Write(p []byte) (int, error) {
+	if c.before != nil {
+		c.before()
+	}
 	c.writes = append(c.writes, append([]byte(nil), p...))
 	return len(p), nil
 }
@@ -321,6 +328,17 @@ func encRun(op *encOp) (line []byte, nWrites int, panicMsg string) {
 			panicMsg = "panic: " + fmt.Sprint(e)
 		}
 	}()
+	if op.Reentrant {
+		// a sink that itself logs (through another core sharing the encoder and buffer pools) before it consumes
+		// its argument: the line handed to the sink must not be disturbed by that
+		inner := zapcore.NewCore(zapcore.NewJSONEncoder(zap.NewProductionEncoderConfig()), zapcore.AddSync(io.Discard), zapcore.Level(-128))
+		sink.before = func() {
+			for i := 0; i < 3; i++ {
+				_ = inner.Write(zapcore.Entry{Message: "diagnostic from inside the sink, long enough to overwrite a recycled buffer ........................................"},
+					[]zapcore.Field{zap.String("k", "vvvvvvvvvvvvvvvvvvvvvvvvvvvvvvvvvvvvvvvvvvvvvvvvvvvvvvvvvvvvvvvvvvvvvvvvvvvvvvvvvvvvvv"), zap.Int("n", i)})
+			}
+		}
+	}
 	core := zapcore.NewCore(enc, sink, zapcore.Level(-128))
 	for _, c := range op.Ctx {
 		core = core.With(buildFields(c))
